@@ -6,7 +6,7 @@ ENT = 'saml2_tophat.entity:Entity'
 MDS = 'saml2_tophat.mdstore:MetadataStore'
 declare_class('saml2_tophat.config:Config', fields={
     'preferred_binding': 'Dict(Str, List(Str))', 'accepted_time_diff': 'Opt(Int)', 'entityid': 'Any',
-    'attribute_converters': 'Any', 'metadata': "Opt(Inst('%s'))" % MDS})
+    'attribute_converters': 'Any', 'allow_unknown_attributes': 'Any', 'metadata': "Opt(Inst('%s'))" % MDS})
 declare_class(ENT, fields={
     'entity_type': 'Str', 'config': "Inst('saml2_tophat.config:Config')",
     'metadata': "Inst('%s')" % MDS, 'sec': "Inst('saml2_tophat.sigver:SecurityContext')",
@@ -134,7 +134,7 @@ contract(ENT + '.unravel', pure=True, trusted=True, params=['txt', 'binding', 'm
          returns='Union(Str, Bytes, NoneT)', raises={'UnknownBinding': 'True', 'UnravelError': 'True'},
          note='ASSUMED here: transport decoding (C14 decoders)')
 
-_KW = ['outstanding_queries', 'outstanding_certs', 'allow_unsolicited', 'want_assertions_signed',
+_KW = ['outstanding_queries', 'allow_unsolicited', 'want_assertions_signed',
        'want_assertions_or_response_signed', 'want_response_signed', 'return_addrs', 'entity_id', 'attribute_converters',
        'allow_unknown_attributes', 'conv_info', 'valid_destination_regex']
 _KWSET = ' and '.join("has_key(kwargs, '%s')" % k for k in _KW)
@@ -276,3 +276,52 @@ for _resp, _typ in [(False, 'SAMLRequest'), (True, 'SAMLResponse')]:
              raises={'Exception': 'True'}, modifies=[],
              clauses_from={'C15': ['C15-signed-with-the-entity-s-own-key', 'C15-unsigned-when-not-asked']})
     _ab_variants[(('binding', _REDIR), ('response', _resp))] = _vq
+
+
+# ================================================================================================ the SP's public entry point (C02, C05)
+BASE = 'saml2_tophat.client_base:Base'
+declare_class(BASE, fields={'allow_unsolicited': 'Any', 'want_assertions_signed': 'Opt(Bool)', 'want_assertions_or_response_signed': 'Opt(Bool)',
+                            'want_response_signed': 'Opt(Bool)', 'valid_destination_regex': 'Opt(Str)', 'users': "Inst('saml2_tophat.population:Population')"})
+declare_class('saml2_tophat.population:Population', fields={})
+contract(BASE + '.service_urls', types={'binding': 'Opt(Str)'}, returns='Opt(List(Str))', pure=True,
+         requires=["EP_TABLE_OK(self.config, 'sp', 'assertion_consumer_service')"],
+         ensures=[# C05: the return addresses are this SP's own assertion-consumer endpoints for that binding
+                  ('C05-own-endpoints', "implies(result is not None, forall(lambda v: implies(contains(seq(result), v), "
+                                        "cfg_attr(self.config, 'endpoints', 'sp') is not None and "
+                                        "has_key(as_type(cfg_attr(self.config, 'endpoints', 'sp'), 'Dict(Str, List(Tuple(Str, Str)))'), 'assertion_consumer_service') and "
+                                        "exists(lambda j: as_type(cfg_attr(self.config, 'endpoints', 'sp'), 'Dict(Str, List(Tuple(Str, Str)))')['assertion_consumer_service'][j][0] == v and "
+                                        "(binding is None or as_type(cfg_attr(self.config, 'endpoints', 'sp'), 'Dict(Str, List(Tuple(Str, Str)))')['assertion_consumer_service'][j][1] == binding), 0, "
+                                        "len(as_type(cfg_attr(self.config, 'endpoints', 'sp'), 'Dict(Str, List(Tuple(Str, Str)))')['assertion_consumer_service']))), 'Val'))")],
+         modifies=[], clauses_from={'C05': ['C05-own-endpoints']})
+contract('saml2_tophat.population:Population.add_information_about_person', trusted=True, pure=True, params=['self', 'session_info'],
+         returns='Any', raises={'Exception': 'True'}, note='ASSUMED: stores a copy of the session information (C19); does not touch the response')
+contract(ARQ + '.session_info', trusted=True, pure=True, params=['self'], returns='Dict(Str, Any)', raises={'Exception': 'True'},
+         note='ASSUMED: reads the response object')
+_RR = 'as_type(result, "Inst(\'%s\')")' % ARQ
+contract(BASE + '.parse_authn_request_response',
+         types={'xmlstr': 'Any', 'binding': 'Opt(Str)', 'outstanding': 'Any', 'outstanding_certs': 'Any', 'conv_info': 'Any'},
+         returns="Opt(Inst('%s'))" % ARQ, merge_exits='raises',
+         requires=["EP_TABLE_OK(self.config, 'sp', 'assertion_consumer_service')", "EP_TABLE_OK(self.config, self.entity_type, 'assertion_consumer_service')",
+                   'self.config.entityid is None or is_str(self.config.entityid)',
+                   "conv_info is None or typed(conv_info, 'Dict(Str, Any)')", "outstanding is None or typed(outstanding, 'Dict(Str, Any)')",
+                   'outstanding_certs is None'],
+         ensures=[
+             # C02, at the point where the application observes it, in terms of the three documented options
+             ('C02-want-response-signed', 'implies(result is not None and truthy(self.want_response_signed), truthy(%s.response.signature))' % _RR),
+             ('C02-want-assertions-signed',
+              'implies(result is not None and truthy(self.want_assertions_signed) and isinstance(%s.response, "saml2_tophat.samlp:Response"), '
+              'forall(lambda k: truthy(%s.assertions[k].signature), 0, len(%s.assertions)))' % (_RR, _RR, _RR)),
+             ('C02-want-either',
+              'implies(result is not None and truthy(self.want_assertions_or_response_signed) and isinstance(%s.response, "saml2_tophat.samlp:Response"), '
+              'truthy(%s.response.signature) or forall(lambda k: truthy(%s.assertions[k].signature), 0, len(%s.assertions)))' % (_RR, _RR, _RR, _RR)),
+             ('C02-present-response-signature-verified',
+              'implies(result is not None and truthy(%s.response.signature) and not truthy(%s.do_not_verify) and truthy(%s.response.id), '
+              'SIG_OK(%s.sec, %s.origxml, %s.response, cname(%s.response), None))' % (_RR, _RR, _RR, _RR, _RR, _RR, _RR))],
+         raises={'Exception': 'True'},
+         modifies=['dicts', 'lists', '*.assertion', '*.encrypted_assertion', '*.subject_confirmation', '*.assertions', '*.ava', '*.came_from',
+                   '*.name_id', '*.not_on_or_after', '*.session_not_on_or_after', '*.xmlstr', '*.origxml', '*.response', '*.in_response_to',
+                   '*.require_signature', '*.require_response_signature'],
+         clauses_from={'C02': ['C02-want-response-signed', 'C02-want-assertions-signed', 'C02-want-either',
+                               'C02-present-response-signature-verified']})
+contract(ENT + '._parse_response', trusted=True, variants={('service', 'assertion_consumer_service'): ENT + '._parse_response[AuthnResponse]'},
+         note='dispatch stub: the only call with service=assertion_consumer_service passes response_cls=AuthnResponse')
